@@ -468,6 +468,12 @@ def streams(tier, rng):
         for kind in kinds:
             c = [b"0" * n + b"5\n", b"6" + b" \t"[n % 2:n % 2 + 1] * n + b"\n", b"9" * n + b"\n", b"3\n" + b"x" * n][kind]
             cases.append((301, [[rng.choice([3, 14, 64])], _file_arg(c), [2], [1], [0], [1]]))
+    # first lines longer than one I/O buffer (8192) and than 64 KiB: a valid-looking prefix, a long run of
+    # blanks, then garbage / more digits; and long tails behind a valid first line
+    for n in [8185, 8190, 8191, 8192, 8193, 8200, 10000, 16384, 65536, 70001] + ([131072, 300000] if big else []):
+        for c in (b"12" + b" " * n + b"34\n", b"7" + b"\t" * n + b"junk\n", b"5" + b" " * n + b"\n", b"3\n" + b"y" * n,
+                  b" " * n + b"4\n"):
+            cases.append((301, [[rng.choice([3, 14, 64])], _file_arg(c), [2], [1], [0], [1]]))
     yield "exh_content_sizes", "exact", cases
     # 6. exploration only: non-ASCII content (outside the model's alphabet; model side is a constant)
     cases = []
